@@ -333,6 +333,50 @@ def read_affine_branch(repo):
     raise TranslateError("_Get_Mapping: affine branch not found")
 
 
+def read_pointin_form(repo):
+    """Reads the dim == 3 branch of _GroupElem.Get_pointsInElem (statement-level, fail-closed).
+    Returns (trim, orient, lineno):
+      trim   'last1'   : PRISM rows 3, 4 lose their last entry (`surfaces[3, :-1]`), code as found
+             'closing' : trailing repetitions of the first node are removed from every row
+      orient 'tables'  : the half-space normal is cross(p1 - p0, p2 - p0) as the tables give it
+             'centroid': that normal is flipped when the element centroid lies on its positive side"""
+    path = os.path.join(repo, "EasyFEA/FEM/_group_elem.py")
+    tree = ast.parse(open(path).read())
+    fn = _find_func(tree, ["_GroupElem", "Get_pointsInElem"])
+    if fn is None:
+        raise TranslateError("_GroupElem.Get_pointsInElem not found")
+    br = None
+    for n in ast.walk(fn):
+        if isinstance(n, ast.If) and ast.unparse(n.test) == "dim == 3":
+            br = n
+    if br is None:
+        raise TranslateError("Get_pointsInElem: no `dim == 3` branch")
+    stmts = [ast.unparse(st) for st in br.body]
+    src = "\n".join(stmts)
+    need = ["p0_f = [surface[0] for surface in surfaces]", "p1_f = [surface[1] for surface in surfaces]",
+            "p2_f = [surface[-1] for surface in surfaces]", "i_f = Normalize(coord[p1_f] - coord[p0_f])",
+            "j_f = Normalize(coord[p2_f] - coord[p0_f])", "n_f = Normalize(np.cross(i_f, j_f, 1, 1))",
+            "v_f = coordinates_n_i - coord[p0_f]", "t_f = np.einsum('nfi,fi->nf', v_f, n_f, optimize='optimal') <= tol",
+            "filtre = np.sum(t_f, 1)", "idx = np.where(filtre == Nface)[0]", "coord = self.coord[connect[elem]]"]
+    for t in need:
+        if t not in stmts:
+            raise TranslateError("Get_pointsInElem (dim 3): statement `%s` not found" % t)
+    if "surfaces[3, :-1]" in src and "surfaces[4, :-1]" in src and "startswith('PRISM')" in src and "while" not in src:
+        trim = "last1"
+    elif "while surface[-1] == surface[0]:\n        surface.pop()" in src and "surfaces = [list(surface) for surface in self.surfaces]" in src:
+        trim = "closing"
+    else:
+        raise TranslateError("Get_pointsInElem (dim 3): unknown treatment of the padded prism rows")
+    flip = [t for t in stmts if "n_f[" in t or "n_f *=" in t or "n_f = -" in t]
+    if not flip:
+        orient = "tables"
+    elif flip == ["n_f[inward_f] *= -1"] and "inward_f = np.einsum('fi,fi->f', coord.mean(0) - coord[p0_f], n_f) > 0" in stmts:
+        orient = "centroid"
+    else:
+        raise TranslateError("Get_pointsInElem (dim 3): unknown normal re-orientation %s" % flip)
+    return trim, orient, br.lineno
+
+
 # --------------------------------------------------------------------------------------
 def _nl(l):
     return "[" + "; ".join(str(i) for i in l) + "]"
@@ -342,7 +386,7 @@ def _nll(ll):
     return "[" + "; ".join(_nl(l) for l in ll) + "]"
 
 
-def emit_coq(faces, eval_form):
+def emit_coq(faces, eval_form, pointin=("last1", "tables")):
     from . import pyexpr
     L = ["(* GENERATED from EasyFEA/FEM/Elems/*.py (index tables) and _GroupElem._Get_Mapping.Eval by translator/faces.py — do not edit *)",
          "From Coq Require Import QArith List String.",
@@ -361,4 +405,7 @@ def emit_coq(faces, eval_form):
     L.append("Definition all_ftabs : list ftab := [%s]." % "; ".join(names))
     L.append("(* cost function of the iterative inverse map as found in the source *)")
     L.append("Definition eval_form : eval_kind := %s." % {"tangent": "EvalTangent", "iso": "EvalIso"}[eval_form])
+    L.append("(* treatment of padded rows / normal orientation in Get_pointsInElem (dim 3) as found *)")
+    L.append("Definition pie_trim : trim_kind := %s." % {"last1": "TrimLast1", "closing": "TrimClosing"}[pointin[0]])
+    L.append("Definition pie_orient : orient_kind := %s." % {"tables": "OrientTables", "centroid": "OrientCentroid"}[pointin[1]])
     return "\n".join(L) + "\n"
